@@ -663,14 +663,80 @@ impl<'tcx> Cx<'tcx> {
         out.push_str("]}\n");
     }
 
+    /// the elements of a `&[&str]` constant, read from the constant's allocation: each element is a (pointer, length)
+    /// pair whose pointer carries the provenance of the string's allocation
+    fn str_slice_json(&self, did: DefId) -> Option<String> {
+        use rustc_middle::mir::interpret::{GlobalAlloc, Scalar};
+        let tcx = self.tcx;
+        let env = TypingEnv::post_analysis(tcx, did);
+        let c = Const::from_unevaluated(tcx, did).instantiate_identity().skip_norm_wip();
+        let val = c.eval(tcx, env, rustc_span::DUMMY_SP).ok()?;
+        let (aid, start, n) = match val {
+            ConstValue::Slice { alloc_id, meta } => (alloc_id, 0usize, meta as usize),
+            ConstValue::Indirect { alloc_id, offset } => {
+                // a place holding the fat pointer itself
+                let GlobalAlloc::Memory(a) = tcx.global_alloc(alloc_id) else { return None };
+                let a = a.inner();
+                let o = offset.bytes() as usize;
+                let prov = a.provenance().ptrs().get(&rustc_abi::Size::from_bytes(o as u64))?;
+                let raw = a.inspect_with_uninit_and_ptr_outside_interpreter(o..o + 16);
+                let rel = u64::from_le_bytes(raw[0..8].try_into().ok()?) as usize;
+                let len = u64::from_le_bytes(raw[8..16].try_into().ok()?) as usize;
+                (prov.alloc_id(), rel, len)
+            }
+            ConstValue::Scalar(Scalar::Ptr(..)) | _ => return None,
+        };
+        let GlobalAlloc::Memory(a) = tcx.global_alloc(aid) else { return None };
+        let a = a.inner();
+        let mut o = String::from("[");
+        for i in 0..n {
+            let off = start + i * 16;
+            if off + 16 > a.len() {
+                return None;
+            }
+            let prov = a.provenance().ptrs().get(&rustc_abi::Size::from_bytes(off as u64))?;
+            let raw = a.inspect_with_uninit_and_ptr_outside_interpreter(off..off + 16);
+            let rel = u64::from_le_bytes(raw[0..8].try_into().ok()?) as usize;
+            let len = u64::from_le_bytes(raw[8..16].try_into().ok()?) as usize;
+            let GlobalAlloc::Memory(sa) = tcx.global_alloc(prov.alloc_id()) else { return None };
+            let sa = sa.inner();
+            if rel + len > sa.len() {
+                return None;
+            }
+            let b = sa.inspect_with_uninit_and_ptr_outside_interpreter(rel..rel + len);
+            if i > 0 {
+                o.push(',');
+            }
+            o.push_str(&js(&String::from_utf8_lossy(b)));
+        }
+        o.push(']');
+        Some(o)
+    }
+
     fn const_item_json(&self, did: DefId, out: &mut String) {
         let tcx = self.tcx;
         let ty = tcx.type_of(did).instantiate_identity().skip_norm_wip();
         let is_str = matches!(ty.kind(), ty::Ref(_, inner, _) if inner.is_str());
-        if !(ty.is_integral() || ty.is_bool() || ty.is_char() || is_str) {
+        if tcx.generics_of(did).requires_monomorphization(tcx) {
             return;
         }
-        if tcx.generics_of(did).requires_monomorphization(tcx) {
+        // `&[&str]` string tables (keyword lists and the like): val is the list of strings
+        let is_str_slice = matches!(ty.kind(), ty::Ref(_, inner, _)
+            if matches!(inner.kind(), ty::Slice(e) if matches!(e.kind(), ty::Ref(_, s, _) if s.is_str())));
+        if is_str_slice {
+            if let Some(v) = self.str_slice_json(did) {
+                let _ = writeln!(
+                    out,
+                    "{{\"t\":\"const\",\"path\":{},\"dp\":{},\"ty\":{},\"val\":{}}}",
+                    js(&self.path(did)),
+                    js(&self.dpath(did)),
+                    js(&self.ty_str(ty)),
+                    v
+                );
+            }
+            return;
+        }
+        if !(ty.is_integral() || ty.is_bool() || ty.is_char() || is_str) {
             return;
         }
         let c = Const::from_unevaluated(tcx, did).instantiate_identity().skip_norm_wip();
